@@ -181,7 +181,7 @@ def norm(v):
             kv = [[norm(p[0]), norm(p[1])] for p in v.get("kv", [])]
             kv.sort(key=lambda p: json.dumps(p[0], sort_keys=True))
             return {"k": "map", "kv": kv}
-        return {kk: norm(vv) for kk, vv in v.items() if kk not in ("rep", "num_free")}
+        return {kk: norm(vv) for kk, vv in v.items() if kk not in ("rep", "num_free", "wrap")}
     if isinstance(v, list):
         return [norm(x) for x in v]
     return v
